@@ -164,11 +164,11 @@ theorem endAccess_quiet (s : State) (aid : Nat) : Quiet s (endAccess s aid).1 :=
     | exact dropAcc_quiet _ _
     | exact (dropAcc_quiet s aid).trans (decAttach_quiet _)
 
-theorem hlConvert_ro (s : State) (aid : Nat) (h : canWrite s.f = false) : hlConvert s aid = .fail := by
+theorem hlConvert_ro (cfg : Cfg) (s : State) (aid : Nat) (h : canWrite s.f = false) : hlConvert cfg s aid = .fail := by
   unfold hlConvert; rsplit
   all_goals simp_all
 
-theorem seek_quiet (s : State) (aid : Nat) (off : Int) (org : Nat) : Quiet s (seek s aid off org).1 := by
+theorem seek_quiet (cfg : Cfg) (s : State) (aid : Nat) (off : Int) (org : Nat) : Quiet s (seek cfg s aid off org).1 := by
   unfold seek
   split
   · exact Quiet.refl _
@@ -511,7 +511,7 @@ theorem step_ro (cfg : Cfg) (hg : cfg.guarded = true) (s : State) (op : Op) (hi 
   | startwrite fid tag ref len => simp only [step]; rw [startWrite_ro cfg s fid tag ref len hi.1]; exact ⟨Same.refl _, hi, fun _ => rfl⟩
   | setlength aid len => have h := setLength_ro cfg g4 s aid len hi.1; have := Q h.2; exact ⟨this.1, this.2, fun _ => h.1⟩
   | appendable aid => have := Q (appendable_quiet s aid); exact ⟨this.1, this.2, by simp [Op.isMutating]⟩
-  | seek aid off org => have := Q (seek_quiet s aid off org); exact ⟨this.1, this.2, by simp [Op.isMutating]⟩
+  | seek aid off org => have := Q (seek_quiet cfg s aid off org); exact ⟨this.1, this.2, by simp [Op.isMutating]⟩
   | read aid len => have := Q (read_quiet s aid len); exact ⟨this.1, this.2, by simp [Op.isMutating]⟩
   | write aid d => simp only [step]; rw [write_ro cfg s aid d hi.1]; exact ⟨Same.refl _, hi, fun _ => rfl⟩
   | trunc aid len => simp only [step]; rw [trunc_ro s aid len hi.1]; exact ⟨Same.refl _, hi, fun _ => rfl⟩
@@ -528,7 +528,7 @@ theorem step_ro (cfg : Cfg) (hg : cfg.guarded = true) (s : State) (op : Op) (hi 
     simp only [step]
     split
     · exact ⟨Same.refl _, hi, fun _ => rfl⟩
-    · exact ⟨Same.refl _, hi, fun _ => hlConvert_ro s aid hi.1.1⟩
+    · exact ⟨Same.refl _, hi, fun _ => hlConvert_ro cfg s aid hi.1.1⟩
   | hxcreate fid tag ref o => simp only [step]; rw [specialCreate_ro s fid tag _ hi.1]; exact ⟨Same.refl _, hi, fun _ => rfl⟩
   | hccreate fid tag ref => simp only [step]; rw [specialCreate_ro s fid tag _ hi.1]; exact ⟨Same.refl _, hi, fun _ => rfl⟩
   | hmccreate fid tag ref => simp only [step]; rw [specialCreate_ro s fid tag _ hi.1]; exact ⟨Same.refl _, hi, fun _ => rfl⟩
@@ -600,7 +600,7 @@ theorem step_read_quiet (cfg : Cfg) (s : State) (op : Op) (h : op.isReadClass = 
   case startaccess fid tag ref flags => exact startAccess_quiet s fid tag ref flags (by simpa using h)
   case startread fid tag ref => exact startRead_quiet s fid tag ref
   case appendable aid => exact appendable_quiet s aid
-  case seek aid off org => exact seek_quiet s aid off org
+  case seek aid off org => exact seek_quiet cfg s aid off org
   case read aid len => exact read_quiet s aid len
   case endaccess aid => exact endAccess_quiet s aid
   case getelement fid tag ref => exact getElement_quiet s fid tag ref
